@@ -113,3 +113,12 @@ func hexs(s string) string {
 	}
 	return string(b)
 }
+
+// VerifInf: ±Inf without importing math in the benchfmt hook file.
+func VerifInf(neg bool) float64 {
+	v, _ := special([]byte("inf"))
+	if neg {
+		return -v
+	}
+	return v
+}
